@@ -68,3 +68,19 @@ package codec
 //@   panics_never
 //@   modifies nothing
 //@   ensures result == ((global(UpgradeFeatureMap)["MAXCH"] != 0 && height >= global(UpgradeFeatureMap)["MAXCH"]) || global(TestMode) <= 0 - 3)
+
+// ---- encoding/decoding through amino / protobuf (external reflection-based libraries) --------
+// Decoding overwrites the Go object the pointer argument designates and touches no other state
+// modelled here (in particular none of the ghost call-event counters).
+//@ func (*Codec).UnmarshalBinaryLengthPrefixed
+//@   trusted external codec (amino / gogoproto reflection): writes only through the pointer argument
+//@   modifies heap
+//@ func (*Codec).UnmarshalBinaryBare
+//@   trusted external codec (amino / gogoproto reflection): writes only through the pointer argument
+//@   modifies heap
+//@ func (*Codec).MarshalBinaryLengthPrefixed
+//@   trusted external codec (amino / gogoproto reflection): reads its argument, returns fresh bytes
+//@   pure_fn
+//@ func (*Codec).MarshalBinaryBare
+//@   trusted external codec (amino / gogoproto reflection): reads its argument, returns fresh bytes
+//@   pure_fn
